@@ -77,6 +77,13 @@ def type_stream(rnd: random.Random, n_random: int):
                 ms = rnd.sample(tups, n)
                 out.append(Union[tuple(ms)])
         out.append(Union[tuple(tups[1:7] + [Tuple[a, str]])])
+    # unions of tuples that are EACH homogeneous but over different element types (must not become Tuple[T, ...])
+    mixed = [Tuple[()]] + [Tuple[tuple([a] * i)] for a in (int, str, fx.B, fx.C) for i in (1, 2, 3)]
+    for n in (3, 4, 6, 7):
+        for _ in range(8):
+            out.append(Union[tuple(rnd.sample(mixed, n))])
+    out.append(Union[Tuple[()], Tuple[int], Tuple[str]])
+    out.append(Union[Tuple[int], Tuple[str, str], Tuple[int, int, int]])
     # dict unions for RewriteConfigDict
     for vs in ([int, str], [int, str, NoneType], [List[int], int], [int, Dict[str, int]]):
         out.append(Union[tuple(Dict[str, v] for v in vs)])
